@@ -663,11 +663,30 @@ func (in *inliner) closureOf(v *types.Var) *calleeInfo {
 		return nil
 	}
 	if !in.newClosures[declName(fd)][v.Name()] {
-		return nil
+		// a closure variable that arrived with an inlined helper (a function-valued parameter turned local): new unless
+		// the reference tree has a closure of that name in this function, or the function itself is outside the vocabulary
+		if in.voc == nil {
+			return nil
+		}
+		fnKnown, known := false, false
+		for _, n := range in.voc.Funcs[in.rel] {
+			if n == declName(fd) {
+				fnKnown = true
+			}
+		}
+		for _, n := range in.voc.Closures[in.rel][declName(fd)] {
+			if n == v.Name() {
+				known = true
+			}
+		}
+		if !fnKnown || known {
+			return nil
+		}
 	}
 	info := in.pk.TypesInfo
 	var lit *ast.FuncLit
 	ok := true
+	viaAlias := false
 	nAssign := 0
 	ast.Inspect(fd.Body, func(n ast.Node) bool {
 		switch x := n.(type) {
@@ -683,6 +702,16 @@ func (in *inliner) closureOf(v *types.Var) *calleeInfo {
 						if l, isL := x.Rhs[i].(*ast.FuncLit); isL && info.Defs[id] == v {
 							lit = l
 							continue
+						}
+						// `keep := inlN_a1` where inlN_a1 is itself a variable that holds one function literal
+						if rid, isID := x.Rhs[i].(*ast.Ident); isID && info.Defs[id] == v {
+							if rv, isVar := info.Uses[rid].(*types.Var); isVar && rv != v && strings.HasPrefix(rv.Name(), "inl") {
+								if l := in.singleLit(fd, rv); l != nil {
+									lit = l
+									viaAlias = true
+									continue
+								}
+							}
 						}
 					}
 					ok = false
@@ -714,13 +743,59 @@ func (in *inliner) closureOf(v *types.Var) *calleeInfo {
 		return nil
 	}
 	f, _ := in.fileOf(lit.Pos())
-	return &calleeInfo{name: declName(fd) + "$" + v.Name(), typ: lit.Type, body: lit.Body, node: lit, file: f, obj: v, keepAfter: lit.End(), varName: v.Name()}
+	ci := &calleeInfo{name: declName(fd) + "$" + v.Name(), typ: lit.Type, body: lit.Body, node: lit, file: f, obj: v, keepAfter: lit.End(), varName: v.Name()}
+	if viaAlias {
+		ci.keepAfter = token.NoPos // a parameter turned local: it stays used by the `_ = p` line of its block
+	}
+	return ci
+}
+
+// singleLit: the function literal a variable of fd is declared with (`var x = func…`), if that is its only assignment.
+func (in *inliner) singleLit(fd *ast.FuncDecl, v *types.Var) *ast.FuncLit {
+	info := in.pk.TypesInfo
+	var lit *ast.FuncLit
+	n := 0
+	ast.Inspect(fd.Body, func(nd ast.Node) bool {
+		switch x := nd.(type) {
+		case *ast.ValueSpec:
+			for i, id := range x.Names {
+				if info.Defs[id] == v {
+					n++
+					if i < len(x.Values) {
+						lit, _ = x.Values[i].(*ast.FuncLit)
+					}
+				}
+			}
+		case *ast.AssignStmt:
+			for _, lh := range x.Lhs {
+				if id, ok := lh.(*ast.Ident); ok && (info.Defs[id] == v || info.Uses[id] == v) {
+					n++
+				}
+			}
+		case *ast.UnaryExpr:
+			if id, ok := x.X.(*ast.Ident); ok && x.Op == token.AND && info.Uses[id] == v {
+				n += 2
+			}
+		}
+		return true
+	})
+	if n != 1 {
+		return nil
+	}
+	return lit
 }
 
 // resolve returns the callee of call if it is a new helper of this package.
 func (in *inliner) resolve(call *ast.CallExpr) (*calleeInfo, ast.Expr) {
 	info := in.pk.TypesInfo
-	switch fun := call.Fun.(type) {
+	fun0 := call.Fun
+	switch ix := fun0.(type) {
+	case *ast.IndexExpr:
+		fun0 = ix.X // f[T](…)
+	case *ast.IndexListExpr:
+		fun0 = ix.X
+	}
+	switch fun := fun0.(type) {
 	case *ast.Ident:
 		switch o := info.Uses[fun].(type) {
 		case *types.Func:
@@ -729,7 +804,7 @@ func (in *inliner) resolve(call *ast.CallExpr) (*calleeInfo, ast.Expr) {
 			}
 			return in.declOf(o), nil
 		case *types.Var:
-			if o.Pkg() != in.pk.Types || o.IsField() || len(in.newClosures) == 0 {
+			if o.Pkg() != in.pk.Types || o.IsField() {
 				return nil, nil
 			}
 			return in.closureOf(o), nil
@@ -756,7 +831,7 @@ func (in *inliner) resolve(call *ast.CallExpr) (*calleeInfo, ast.Expr) {
 func (in *inliner) eligible(c *calleeInfo) string {
 	hasDefer := false
 	defer func() { c.hasDefer = hasDefer }()
-	if c.typ.TypeParams != nil && len(c.typ.TypeParams.List) > 0 {
+	if c.typ.TypeParams != nil && len(c.typ.TypeParams.List) > 0 && (c.recv != nil || !c.isDecl) {
 		return "type parameters"
 	}
 	if c.recv != nil && len(c.recv.List) == 1 {
@@ -1254,6 +1329,60 @@ func (in *inliner) fileEdits(f *ast.File, fname string, src []byte) []textEdit {
 	return edits
 }
 
+// instanceOf: for a call of a generic function, the instantiated signature and the type arguments (nil, nil otherwise).
+func (in *inliner) instanceOf(call *ast.CallExpr) (*types.Signature, *types.TypeList) {
+	fun := call.Fun
+	switch ix := fun.(type) {
+	case *ast.IndexExpr:
+		fun = ix.X
+	case *ast.IndexListExpr:
+		fun = ix.X
+	}
+	id, ok := fun.(*ast.Ident)
+	if !ok {
+		return nil, nil
+	}
+	inst, ok := in.pk.TypesInfo.Instances[id]
+	if !ok {
+		return nil, nil
+	}
+	sig, _ := inst.Type.(*types.Signature)
+	return sig, inst.TypeArgs
+}
+
+// typeText: source text for type t that is valid in file f of this package (imports that are missing are noted in
+// needImports); ok=false when a package would be needed under a name that means something else in the file.
+func (in *inliner) typeText(t types.Type, f *ast.File) (string, bool) {
+	ok := true
+	qual := func(p *types.Package) string {
+		if p == in.pk.Types {
+			return ""
+		}
+		for _, imp := range f.Imports {
+			path := strings.Trim(imp.Path.Value, `"`)
+			if path != p.Path() {
+				continue
+			}
+			if imp.Name != nil {
+				if imp.Name.Name == "_" || imp.Name.Name == "." {
+					ok = false
+				}
+				return imp.Name.Name
+			}
+			return p.Name()
+		}
+		if in.needImports == nil {
+			in.needImports = map[string]string{}
+		}
+		if prev, has := in.needImports[p.Name()]; has && prev != p.Path() {
+			ok = false
+		}
+		in.needImports[p.Name()] = p.Path()
+		return p.Name()
+	}
+	return types.TypeString(t, qual), ok
+}
+
 // isTail: the statement is `return h(...)`, h has unnamed results whose types are identical to those of the function
 // the statement returns from — then h's own return statements can stand in the caller unchanged.
 func (in *inliner) isTail(c *calleeInfo, call *ast.CallExpr, s0 ast.Stmt, parents map[ast.Node]ast.Node) bool {
@@ -1280,6 +1409,9 @@ func (in *inliner) isTail(c *calleeInfo, call *ast.CallExpr, s0 ast.Stmt, parent
 		calleeSig, _ = o.Type().(*types.Signature)
 	case *types.Var:
 		calleeSig, _ = o.Type().Underlying().(*types.Signature)
+	}
+	if isig, _ := in.instanceOf(call); isig != nil {
+		calleeSig = isig
 	}
 	if calleeSig == nil {
 		return false
@@ -1374,6 +1506,17 @@ func (in *inliner) expand(c *calleeInfo, call *ast.CallExpr, recvX ast.Expr, tai
 		sig, _ = o.Type().(*types.Signature)
 	case *types.Var:
 		sig, _ = o.Type().Underlying().(*types.Signature)
+	}
+	// a generic function: everything is taken from the instance at this call; the type parameters become local aliases
+	generic := c.typ.TypeParams != nil && len(c.typ.TypeParams.List) > 0
+	var typeArgs *types.TypeList
+	callerFile, _ := in.fileOf(call.Pos())
+	if generic {
+		isig, targs := in.instanceOf(call)
+		if isig == nil || targs == nil || callerFile == nil {
+			return "", nil, "no instance information for the generic call"
+		}
+		sig, typeArgs = isig, targs
 	}
 	var params []param
 	var args []string
@@ -1479,7 +1622,18 @@ func (in *inliner) expand(c *calleeInfo, call *ast.CallExpr, recvX ast.Expr, tai
 			return "", nil, "could not take the source text of a parameter"
 		}
 		if !p.elide {
-			if why := in.sameOutside(c, call, p.typExpr); why != "" {
+			if generic {
+				// (receiver-less: parameter i of the list is parameter i of the signature)
+				if i >= sig.Params().Len() {
+					return "", nil, "parameter count differs from the instance"
+				}
+				tt, okT := in.typeText(sig.Params().At(i).Type(), callerFile)
+				if !okT {
+					return "", nil, "a type of the instance cannot be written in the caller's file"
+				}
+				params[i].typ = tt
+				p = params[i]
+			} else if why := in.sameOutside(c, call, p.typExpr); why != "" {
 				return "", nil, why
 			}
 		}
@@ -1507,9 +1661,21 @@ func (in *inliner) expand(c *calleeInfo, call *ast.CallExpr, recvX ast.Expr, tai
 			declare(i, p)
 		}
 	}
-	if !tail && c.typ.Results != nil {
+	if !tail && c.typ.Results != nil && !generic {
 		if why := in.sameOutside(c, call, c.typ.Results); why != "" {
 			return "", nil, why
+		}
+	}
+	if generic && !tail {
+		if len(rlist) != sig.Results().Len() {
+			return "", nil, "result count differs from the instance"
+		}
+		for i := range rlist {
+			tt, okT := in.typeText(sig.Results().At(i).Type(), callerFile)
+			if !okT {
+				return "", nil, "a type of the instance cannot be written in the caller's file"
+			}
+			rlist[i].typ = tt
 		}
 	}
 	for i, r := range rlist {
@@ -1586,6 +1752,24 @@ func (in *inliner) expand(c *calleeInfo, call *ast.CallExpr, recvX ast.Expr, tai
 		fmt.Fprintf(&sb, "%s: switch { default:\n", label)
 	} else {
 		sb.WriteString("{\n")
+	}
+	if generic {
+		k := 0
+		for _, fld := range c.typ.TypeParams.List {
+			for _, n := range fld.Names {
+				if k >= typeArgs.Len() {
+					return "", nil, "type argument count differs"
+				}
+				tt, okT := in.typeText(typeArgs.At(k), callerFile)
+				if !okT {
+					return "", nil, "a type argument cannot be written in the caller's file"
+				}
+				if n.Name != "_" {
+					fmt.Fprintf(&sb, "type %s = %s\n", n.Name, tt)
+				}
+				k++
+			}
+		}
 	}
 	var pn, an []string
 	for i, p := range params {
